@@ -140,10 +140,13 @@ class RankSelection(SelectionFunction[T]):
         """
         random_value = randomness.next_float()
         bias = self.bias
-        return int(
+        index = int(
             len(population)
             * ((bias - sqrt(bias**2 - (4.0 * (bias - 1.0) * random_value))) / 2.0 / (bias - 1.0))
         )
+        # For random values adjacent to 1.0 the term above rounds to exactly 1.0
+        # for some biases, which would yield an index behind the last individual.
+        return min(index, len(population) - 1)
 
 
 class TournamentSelection(SelectionFunction[T]):
